@@ -1,6 +1,6 @@
 (* Main.v — single entry point of the executable model: token stream in, canonical text out. *)
 From Coq Require Import String.
-From Minimq Require Import Bytes Varint Utf8 Props Ser De Reader Show Parse.
+From Minimq Require Import Bytes Varint Utf8 Props Ser De Reader Arena Core Show Parse Machine Run.
 
 Definition run_p {A} (p : parser A) (f : A -> text) (l : list N) : text :=
   match p l with
@@ -30,6 +30,7 @@ Definition exec_codec (cmd : N) (l : list N) : option text :=
     Some (run_p (cap <- p_N ;; k <- p_N ;; pid <- p_N ;; rc <- p_N ;; p_ret (cap, k, pid, rc))
                 (fun '(cap, k, pid, rc) =>
                    show_sres (if N.eqb k 12 then enc_pingreq cap else enc_ack cap k pid rc)) l)
+  else if N.eqb cmd 10 then Some (run_p p_case show_run l)
   else None.
 
 Definition exec (l : list N) : text :=
